@@ -157,6 +157,11 @@ func cmdVC(args []string) {
 		if strings.HasPrefix(key, "(*") {
 			k = "(*" + repoPrefix + "/" + key[2:]
 		}
+		ck := k
+		if i := strings.Index(key, "@"); i >= 0 {
+			ck = fullKey(key)
+			k = ck[:strings.Index(ck, "@")]
+		}
 		fn := g.FindFunc(k)
 		if fn == nil {
 			fmt.Fprintln(os.Stderr, "function not found:", k)
@@ -172,7 +177,7 @@ func cmdVC(args []string) {
 			}
 			os.Exit(2)
 		}
-		ft := g.TranslateFunction(fn, g.db.Contracts[k])
+		ft := g.TranslateFunction(fn, g.db.Contracts[ck])
 		fts = append(fts, ft)
 	}
 	for _, ft := range fts {
